@@ -7,24 +7,31 @@ FRAGMENT = {
  'thorough': {'runs': 2000000, 'budget_s': 900, 'workers': 16, 'det_sample': 200},
  'level_text': 'seeded exploration of cache populations (decimal, hexadecimal, subpage, single-version and clock pages over 1-3 magazines, transmitted '
                'as real Teletext through vbi_decode), patterns (literals, literals cut out of cached pages, a generated regular-expression subset; case '
-               'folded or not), start positions (cached or not, wildcard / zero / explicit subpage, 0x100 and 0x8FF edges), direction-change and cancel '
-               'histories, and broadcaster/searcher interleavings (cache updates between vbi_search_next calls) against a page-store model, the Level-1 '
-               'formatter of worlds/ttx.h and an independent set-of-positions matcher; every vbi_search_next under an edge budget; real decoder, cache, '
-               'formatter, search and regex engine under ASan+UBSan; sampling, not proof',
+               'folded or not), start positions (a cached page, its neighbours, uncached, wildcard / zero / explicit subpage, 0x100 and 0x8FF edges; contexts '
+               'sharing a start page), call histories on long-lived contexts (whole passes run to not-found followed by passes in the same or the opposite '
+               'direction, passes left or turned in the middle, cancels), and broadcaster/searcher interleavings (cache updates between vbi_search_next calls) '
+               'against a page-store model, the Level-1 formatter of worlds/ttx.h, an independent set-of-positions matcher and a pass model of the documented '
+               'semantics of vbi_search_next; every vbi_search_next under an edge budget; real decoder, cache, formatter, search and regex engine under '
+               'ASan+UBSan; sampling, not proof',
  'level_note': 'trusted: my transmitter and Level-1 formatter (as in C02), my regex parser/matcher for the generated subset, the pass model (forward: keys '
-               '>= start ascending then the rest; backward: keys below the start descending then the rest; a direction change starts a new pass at the last '
-               'returned page). Lenient where the statement is silent: hexadecimal pages may be skipped; a match that exists only when "." / a negated class '
-               'matches the row separator, or only under one reading of the lower row of double-height text, may or may not be found; the same page may be '
-               'returned again for a further occurrence (must lie strictly beyond the previous one); backward passes may visit the start page first or last; '
-               'passes restarted after not-found in a context that changed direction, and all dynamic runs, get per-return checks only (page cached, contains '
-               'a match now, highlight spells a match) plus termination. NOT from the statement: completeness is waived for regular expressions whose symbols '
-               'overlap (ure.c first-transition automaton, reported as a suspected defect)',
+               '>= start ascending then the rest; backward: keys below the start descending then the rest; a pass after not-found restarts from the start page '
+               'of vbi_search_new, in either direction (search.h); a direction change starts a new pass at the last returned page). Lenient where the '
+               'statement is silent: hexadecimal pages may be skipped; a match that exists only when "." / a negated class matches the row separator, or '
+               'only under one reading of the lower row of double-height text, may or may not be found; the same page may be returned again for a further '
+               'occurrence (must lie strictly beyond the previous one); backward passes may visit the start page first or last (or all its subpages first '
+               'with a wildcard subpage), but every backward pass from one start page over one cache must follow the same reading, whatever happened before '
+               '(oracle:search-start-moved); passes restarted after not-found in a context that changed direction in the middle of a pass may begin at any '
+               'page (order, once-per-pass, completeness and not-found still checked); a pass during which the cache changed gets per-return checks only '
+               '(page cached, contains a match now, highlight spells a match) plus termination from the change on, the next pass is judged in full again. '
+               'NOT from the statement: completeness is waived for regular expressions whose symbols overlap (ure.c first-transition automaton, reported '
+               'as a suspected defect)',
  'design_ref': 'DESIGN.md section 6 (C17), section 8 rows 4-5',
  'rule': 'one evaluation = one simulated run: 0-15 page transmissions from a carousel of 1-8 page numbers (0-23 rows from the alphabet "AB ab.+" with '
-         'colour / double width / double height / double size attributes, erase or update), 1-3 search contexts of 1-24 vbi_search_next calls with '
-         'direction changes and an optional cancelling progress callback; 60% static cache (strict order/completeness oracle), 40% interleaved with the '
-         'broadcaster packet by packet by the seeded scheduler; non-trivial = at least one page found, at least one pass ended with not-found and at '
-         'least 2 pages cached; distinct = distinct event-log hash',
+         'colour / double width / double height / double size attributes, erase or update), 1-3 search contexts (half of them reusing the start page of '
+         'the previous one), each either 1-24 vbi_search_next calls with direction changes or a script of 1-6 segments (a whole pass to not-found, at most '
+         '40 calls, or 1-4 single calls; direction kept or reversed per segment), optional cancelling progress callback; 60% static cache, 40% interleaved '
+         'with the broadcaster packet by packet by the seeded scheduler (passes between two cache updates get the strict order/completeness oracle too); '
+         'non-trivial = at least one page found, at least one pass ended with not-found and at least 2 pages cached; distinct = distinct event-log hash',
  'fault_kinds': ['fault_update_between_calls', 'fault_current_page_replaced', 'fault_progress_cancel'],
  'components': {'real': ['src/search.c', 'src/ure.c', 'src/cache.c', 'src/teletext.c', 'src/packet.c', 'src/vbi.c', 'src/lang.c', 'src/hamm.c'],
                 'stub': ['broadcaster (Teletext transmitter library worlds/ttx.h, time-filler header terminates every page)',
